@@ -10,7 +10,16 @@ from typing import Any, Optional
 import numpy as np
 
 from . import gen, specs
-from .impl import make, quiet, full_snapshot, MODES
+from .impl import make, quiet as _quiet, full_snapshot, MODES, time_limit
+import contextlib
+
+
+@contextlib.contextmanager
+def quiet():
+    """silence prints and bound the run time of every call into the implementation"""
+    with _quiet(), time_limit(10.0):
+        yield
+
 
 ELEM = specs.ELEM
 
